@@ -36,6 +36,9 @@ type c18Point struct {
 	Gid2  int    `json:"gid2"`
 	Mode2 int    `json:"mode2"`
 	Via   string `json:"via"` // exec | sensor | fan
+	// Retarget (symlink only): before the second execution the link is pointed at a second file carrying
+	// the second attributes, while the first file stays where and as it was
+	Retarget bool `json:"retarget,omitempty"`
 }
 
 func c18Allowed(uid, gid, mode int) bool {
@@ -125,7 +128,23 @@ func c18Run(dir string, p c18Point) (vs []sim.Violation, flips bool) {
 	}
 	set(p.Uid, p.Gid, p.Mode)
 	judge(1, p.Uid, p.Gid, p.Mode)
-	set(p.Uid2, p.Gid2, p.Mode2)
+	if p.Retarget && p.Symlink {
+		script2 := filepath.Join(dir, "script2.sh")
+		os.Remove(script2)
+		defer os.Remove(script2)
+		if err := os.WriteFile(script2, []byte(body), 0o700); err != nil {
+			return []sim.Violation{{Key: "harness", Msg: err.Error()}}, false
+		}
+		_ = os.Chown(script2, p.Uid2, p.Gid2)
+		_ = os.Chmod(script2, os.FileMode(p.Mode2))
+		os.Remove(link)
+		if err := os.Symlink(script2, link); err != nil {
+			return []sim.Violation{{Key: "harness", Msg: err.Error()}}, false
+		}
+		_ = os.Lchown(link, p.LinkUid, p.LinkUid)
+	} else {
+		set(p.Uid2, p.Gid2, p.Mode2)
+	}
 	judge(2, p.Uid2, p.Gid2, p.Mode2)
 	return vs, c18Allowed(p.Uid, p.Gid, p.Mode) != c18Allowed(p.Uid2, p.Gid2, p.Mode2)
 }
@@ -242,6 +261,7 @@ func TestC18(t *testing.T) {
 					default:
 						p.Uid2, p.Gid2, p.Mode2 = c18Ids[int(x>>40)%3], c18Ids[int(x>>43)%3], int(x>>46)%0o1000
 					}
+					p.Retarget = sym && (x>>55)%3 == 0
 					if (x>>50)%16 == 0 {
 						p.Via = "sensor"
 					} else if (x>>50)%16 == 1 {
@@ -251,7 +271,11 @@ func TestC18(t *testing.T) {
 					if flips {
 						flipsN++
 					}
-					st.CaseH(fmt.Sprintf("%d-%d-%o-%v", uid, gid, mode, sym), p, true, "via:"+p.Via)
+					lbl := []string{"via:" + p.Via}
+					if p.Retarget {
+						lbl = append(lbl, "link-retargeted")
+					}
+					st.CaseH(fmt.Sprintf("%d-%d-%o-%v", uid, gid, mode, sym), p, true, lbl...)
 					if fail := st.Judge(vs); len(fail) > 0 {
 						st.SaveReplay("TestC18", p, fail)
 						t.Fatalf("C18: %v", fail)
